@@ -149,6 +149,29 @@ theorem copy_restores_same (dst : Dest) (roots : List Nat) (reach : List CTree) 
     destComplete (copyStep dst roots reach) roots reach = true :=
   copy_complete dst roots reach
 
+/-- (C1, whole run) `copy` of any snapshots into ANY destination — empty, complete, or holding an arbitrary subset of
+the blobs, e.g. a snapshot's root tree but nothing below it (after `forget` + `prune` of a partly used pack, or after a
+lost pack + `repair index`) — leaves every given snapshot completely readable from the destination: its tree blob,
+every chunk of every file, every sub-tree at every depth.  `copyRun` starts the walk from the root trees of ALL
+snapshots; `dst` is universally quantified, nothing is assumed about it. -/
+theorem copy_restores_all (dst : Dest) (snaps : List STree) : ∀ s ∈ snaps, s.present (copyRun dst snaps) = true :=
+  STree.presentL_mem (copyRun_presentL dst snaps)
+
+/-- … and nothing the destination already held is dropped. -/
+theorem copy_keeps_destination (dst : Dest) (snaps : List STree) :
+    (∀ t ∈ dst.trees, t ∈ (copyRun dst snaps).trees) ∧ (∀ d ∈ dst.data, d ∈ (copyRun dst snaps).data) := by
+  unfold copyRun copyStep
+  exact ⟨fun t ht => List.mem_append_left _ ht, fun d hd => List.mem_append_left _ hd⟩
+
+/-- Why the walk must not be restricted to the snapshots whose root tree is missing ("the destination has the root, so
+it has everything below"): destination = root tree 1 only, snapshot = tree 1 → sub-tree 2 → chunk 5.  The shortcut
+copies nothing and the saved snapshot is unreadable; `copyRun` completes it (seeded change C12-3; replayed on the real
+code by the `H:lose` / `H:prune` destination histories of `c12 copy`). -/
+theorem copy_walk_from_missing_roots_only_loses_content :
+    let snap := STree.node 1 [] [.node 2 [5] []]
+    snap.present (copyRunMissingRootsOnly ⟨[1], []⟩ [snap]) = false ∧ snap.present (copyRun ⟨[1], []⟩ [snap]) = true := by
+  decide
+
 /-- DESIGN §7 #7: snapshot 1 = {src → {d → f, g}} where file `g`'s chunk id equals the id of tree `d` (id 3). -/
 def collision : List CTree := [⟨1, [2], []⟩, ⟨2, [3], [3]⟩, ⟨3, [], [4]⟩]
 
